@@ -31,6 +31,10 @@ pub enum OpKind {
     Load,
     Read,
     Save,
+    /// save_target with the digest-prefixed file name
+    SaveDigest,
+    /// Repository::cache of all targets (saves through the same path)
+    Cache,
 }
 
 #[derive(Clone, Copy, Debug, Serialize, Deserialize, PartialEq, Eq)]
@@ -175,7 +179,7 @@ pub fn prop(case: &Case) -> Outcome {
                     }
                 }
             }
-            OpKind::Read | OpKind::Save => {
+            OpKind::Read | OpKind::Save | OpKind::SaveDigest | OpKind::Cache => {
                 let Some(rp) = repo.as_ref() else { continue };
                 let res: Result<(), tough::error::Error> = crate::rt::block_on(async {
                     match kind {
@@ -183,6 +187,11 @@ pub fn prop(case: &Case) -> Outcome {
                             Some(stream) => stream.into_vec().await.map(|_| ()),
                             None => Ok(()),
                         },
+                        OpKind::SaveDigest => rp.save_target(&name, &out, Prefix::Digest).await,
+                        OpKind::Cache => {
+                            let dir = out.join(format!("cache-{i}"));
+                            rp.cache(dir.join("metadata"), dir.join("targets"), None::<&[&str]>, false).await
+                        }
                         _ => rp.save_target(&name, &out, Prefix::None).await,
                     }
                 });
@@ -266,7 +275,7 @@ fn at() -> impl Strategy<Value = At> {
 }
 
 fn op() -> impl Strategy<Value = (OpKind, At)> {
-    (prop::sample::select(vec![OpKind::Load, OpKind::Read, OpKind::Read, OpKind::Save]), at())
+    (prop::sample::select(vec![OpKind::Load, OpKind::Load, OpKind::Read, OpKind::Read, OpKind::Save, OpKind::SaveDigest, OpKind::Cache]), at())
 }
 
 fn case_strategy() -> impl Strategy<Value = Case> {
@@ -292,7 +301,7 @@ fn grid() -> Vec<Case> {
                     enforcement: mode,
                     margins: [m(0), m(1), m(2), m(3)],
                     expired_intermediates: (subset % 3) as u8,
-                    ops: vec![(OpKind::Read, after), (OpKind::Save, At::Rel(0))],
+                    ops: vec![(OpKind::Read, after), (OpKind::Save, At::Rel(0)), (OpKind::SaveDigest, At::Rel(0)), (OpKind::Cache, At::Rel(0))],
                 });
             }
         }
